@@ -41,6 +41,8 @@ pub enum OpKind {
     AsMutSlice,
     AsMutArray,
     Resize,
+    /// resize to fewer bytes than the region holds
+    ResizeShrink,
     CloneOp,
     T(Trans),
     /// the same transition without `.unwrap()`: the call may return Err (locking pages that are
@@ -173,7 +175,7 @@ pub fn expect(s: State, k: Kind, op: OpKind) -> Expect {
                 }
             }
         },
-        Resize => match k {
+        Resize | ResizeShrink => match k {
             Kind::Array => Expect::NotApplicable,
             Kind::Bytes => {
                 if writable {
@@ -242,6 +244,7 @@ fn op_code(op: OpKind) -> Vec<String> {
         AsMutSlice => vec!["let _v: &mut [u8] = AsMut::<[u8]>::as_mut(&mut r);".into()],
         AsMutArray => vec!["let _v: &mut [u8; 32] = AsMut::<[u8; 32]>::as_mut(&mut r);".into()],
         Resize => vec!["r.resize(64, 0);".into()],
+        ResizeShrink => vec!["r.resize(8, 0); assert_eq!(r.len(), 8);".into()],
         CloneOp => vec!["let _c = r.clone();".into()],
         T(t) => vec![format!("let _r2 = r.{}().unwrap();", trans_code(t))],
         TNoUnwrap(t) => vec![format!("let _r2 = r.{}();", trans_code(t))],
@@ -314,7 +317,7 @@ pub const ALL_STATES: [State; 6] = [
 
 pub fn all_ops() -> Vec<OpKind> {
     use OpKind::*;
-    let mut v = vec![ReadView, MutView, ArrayView, MutArrayView, DerefRead, DerefMutWrite, IndexRead, IndexWrite, CopyFromSlice, AsRefSlice, AsMutSlice, AsMutArray, Resize, CloneOp];
+    let mut v = vec![ReadView, MutView, ArrayView, MutArrayView, DerefRead, DerefMutWrite, IndexRead, IndexWrite, CopyFromSlice, AsRefSlice, AsMutSlice, AsMutArray, Resize, ResizeShrink, CloneOp];
     for t in [Trans::Lock, Trans::Unlock, Trans::ToRO, Trans::ToRW, Trans::ToNA] {
         v.push(T(t));
     }
